@@ -1,6 +1,7 @@
 import Rare.Proofs.C11
 import Rare.Proofs.F64Arith
 import Rare.Proofs.F64Parse
+import Rare.Proofs.F64Fmt
 /-!
 Helper lemmas for the float-valued C11 theorems: the typed-argument machinery of
 `Rare/Proofs/C11.lean` for an arbitrary parser, the run-time equations of the float builders of
@@ -165,8 +166,6 @@ theorem isnum_call (c : Ctx) (a : Arg) :
   simp only [List.map_cons, List.map_nil, ok, run_bind, Arg.run_stage]
   rfl
 
-theorem evalStageInt_const (b : Bytes) : evalStageInt (Arg.const b).stage = .ok (atoi b) := rfl
-
 /-- `{round a p}` with a constant precision `p ≤ 1024`. -/
 theorem round_call (c : Ctx) (a : Arg) (pb : Bytes) (p : Int) (hp : atoi pb = some p) (hmax : p ≤ 1024) :
     callHelper Float.kfRound [a, .const pb] c = .ok (match Float.parseF (a.val c) with
@@ -231,6 +230,17 @@ theorem foldl_add_exact : ∀ (xs : List F64) (ns : List Int) (acc : F64) (a : I
       exact foldl_add_exact xs ns _ _ (F64.add_exact_int h h1 hs.1) h2 hs.2
   | [], _ :: _, _, _, _, hall, _ => by cases hall
   | _ :: _, [], _, _, _, hall, _ => by cases hall
+
+/-- A finite float of value zero prints as `0` or `-0`. -/
+theorem fmtF_zero {y : F64} (h0 : y.toRat = 0) :
+    Float.fmtF y = ascii "0" ∨ Float.fmtF y = ascii "-0" := by
+  have hm := (F64.toRat_eq_zero_iff y).mp h0
+  have hy := F64.ofSM_sign_mag y
+  rw [hm] at hy
+  rw [← hy]
+  cases y.sign
+  · left; decide +kernel
+  · right; decide +kernel
 
 /-- Arguments that are integer spellings (`strconv.Atoi` accepts them) with `|nᵢ| ≤ 2^53` parse as
     floats with exactly those values. -/
